@@ -541,14 +541,12 @@ class MPSBackendImpl:
         """
         times = observable.evaluation_times
 
-        is_observable_eval_time = (
-            times is not None
-            and self.config.is_time_in_evaluation_times(t, times, tol=tolerance)
-        )
+        if times is not None:
+            # The default evaluation times of the config only apply to observables
+            # without evaluation times of their own.
+            return self.config.is_time_in_evaluation_times(t, times, tol=tolerance)
 
-        is_default_eval_time = self.config.is_evaluation_time(t, tol=tolerance)
-
-        return is_observable_eval_time or is_default_eval_time
+        return self.config.is_evaluation_time(t, tol=tolerance)
 
     def fill_results(self) -> None:
         normalized_state = 1 / self.state.norm() * self.state
